@@ -28,6 +28,9 @@ CORPUS = os.path.join(os.path.dirname(os.path.dirname(HERE)), "corpus", "C11")
 IMPORTS_L = ("From Coq Require Import ZArith List Bool.\n"
              "From IPV8V Require Import lib.PyErr lib.Bytes model.M11_listeners.\n"
              "Import ListNotations.\nOpen Scope Z_scope.\n")
+IMPORTS_TG = ("From Coq Require Import ZArith List Bool.\n"
+              "From IPV8V Require Import lib.PyErr lib.Bytes model.M11_listeners model.M11_tasks gen.G11_taskmanager model.M11_tasks_gen.\n"
+              "Import ListNotations.\nOpen Scope Z_scope.\n")
 IMPORTS_T = ("From Coq Require Import ZArith List Bool.\n"
              "From IPV8V Require Import lib.PyErr model.M11_tasks.\n"
              "Import ListNotations.\nOpen Scope Z_scope.\n")
@@ -278,6 +281,27 @@ def stage_tasks(ctx):
     return cases, meta
 
 
+def eval_generated(ctx, lcases, lmeta, tcases, tmeta):
+    """the functions REGENERATED from taskmanager.py / endpoint.py (gen/G11_taskmanager.v through the interpreter
+    M11_tasks_gen.v), evaluated in Coq on the same histories and compared with what the real classes did"""
+    mism, errs = coqrun.eval_mismatches(IMPORTS_TG, "gen_run_tcase", "tobsl_eqb", tcases, os.path.join(ctx.scratch, "gtsk"),
+                                        ctype="list top * list tobs", shard=700)
+    for e in errs:
+        ctx.broke("generated-model evaluation failed (tasks)", e)
+    for i in mism[:10]:
+        ctx.broke("correspondence: task manager history differs between the GENERATED model and the implementation",
+                  json.dumps({"ops": tmeta[i], "impl": tcases[i][1][:900]}))
+    n = len(tcases) - len(mism)
+    mism, errs = coqrun.eval_mismatches(IMPORTS_TG, "gen_run_case", "lobs_eqb", lcases, os.path.join(ctx.scratch, "glst"),
+                                        ctype="(wrapper * list lop) * lobs", shard=1500, preamble=PRE_L)
+    for e in errs:
+        ctx.broke("generated-model evaluation failed (listeners)", e)
+    for i in mism[:10]:
+        ctx.broke("correspondence: listener table history differs between the GENERATED model and the implementation "
+                  "(wrapper %s)" % lmeta[i][0], json.dumps({"wrapper": lmeta[i][0], "ops": lmeta[i][1], "impl": lcases[i][1][:600]}))
+    ctx.coverage["traces_validated_against_impl"] += n + len(lcases) - len(mism)
+
+
 def eval_tasks(ctx, cases, meta):
     mism, errs = coqrun.eval_mismatches(IMPORTS_T, "run_tcase", "tobsl_eqb", cases, os.path.join(ctx.scratch, "tsk"),
                                         ctype="list top * list tobs", shard=700)
@@ -480,9 +504,22 @@ def run(ctx):
         ctx.broke("translator tr_lifecycle aborted", repr(e))
     if rows is not None:
         ctx.proofs()
+    # extension: the bodies of taskmanager.py and of the Endpoint listener table translated from the AST
+    # (gen/G11_taskmanager.v), refinement theorems in props/C11x.v
+    gen_text = None
+    try:
+        from tools.tr import tr_taskmanager
+        gen_text = tr_taskmanager.write()
+        ctx.extra.setdefault("generated", {})["gen/G11_taskmanager.v"] = len(gen_text)
+    except (Unsupported, Exception) as e:   # noqa
+        ctx.broke("translator tr_taskmanager aborted", repr(e))
+    if gen_text is not None:
+        ctx.proofs(part="C11x")
     ctx.coverage["trusted_base"] = [
         "Coq 8.16.1 kernel (coqc, vm_compute); no axioms (Print Assumptions: closed)",
         "translator tools/tr/tr_lifecycle.py (AST of the wrappers' listener methods and of every unload(); fail-closed)",
+        "translator tools/tr/tr_taskmanager.py (AST of ipv8/taskmanager.py and of the Endpoint listener table -> effect lists) "
+        "and the interpreter coq/model/M11_tasks_gen.v of those effects (refinement to the hand models proved in props/C11x.v)",
         "hand models M11_listeners.v / M11_tasks.v (incl. asyncio's FIFO ready queue, call_soon of done callbacks, "
         "Task/Future cancellation) / M11_lifecycle.v, tied by this run's correspondence",
         "model assumption: an overlay acts only on a datagram delivered to one of its listeners, in one of its live tasks, "
@@ -504,6 +541,8 @@ def run(ctx):
     t1 = _time.time()
     # the two machine models are evaluated inside Coq while the whole-system runs are under way
     th = [threading.Thread(target=eval_listeners, args=(ctx, lc, lm)), threading.Thread(target=eval_tasks, args=(ctx, tc, tmeta))]
+    if gen_text is not None:
+        th.append(threading.Thread(target=eval_generated, args=(ctx, lc, lm, tc, tmeta)))
     if rows is not None:      # (the service model is evaluated against the generated step list)
         th.append(threading.Thread(target=eval_service, args=(ctx, vc, vmeta)))
     for t in th:
